@@ -43,7 +43,28 @@ def _pair(draw, max_len, ndim):
 @st.composite
 def _case_lb(draw, max_len):
     s1, s2, regime, sign = draw(_pair(max_len, 1))
-    return {'s1': s1, 's2': s2, 'sign': sign, 'window': draw(gen.window_strategy(len(s1), len(s2))),
+    window = draw(gen.window_strategy(len(s1), len(s2)))
+    if draw(st.integers(0, 7)) == 0:
+        # long series with a wide window (the envelope then starts at the first sample for many rows and reaches the
+        # last sample long before the last row)
+        l1 = draw(st.integers(17, 64))
+        l2 = draw(st.integers(max(17, l1 - 6), l1 + 6))
+        s1 = draw(st.lists(gen.LATTICE, min_size=l1, max_size=l1))
+        s2 = draw(st.lists(gen.LATTICE, min_size=l2, max_size=l2))
+        window = draw(st.one_of(st.integers(max(l1, l2) // 2, max(l1, l2) + 1), st.integers(17, 40), st.none()))
+        sign = 'asis'
+    if draw(st.integers(0, 2)) == 0:
+        # a value outside the range of everything else in the first / last one or two samples of the enveloped series,
+        # and at a few places of the other series: where the envelope is clipped at the ends of the series is then
+        # decisive for the bound
+        e = draw(st.sampled_from([9.0, -9.0]))
+        s1, s2 = list(s1), list(s2)
+        for k in range(draw(st.integers(1, 2))):
+            if k < len(s2):
+                s2[(-1 - k) if draw(st.booleans()) else k] = e
+        for pos in draw(st.lists(st.integers(0, len(s1) - 1), min_size=1, max_size=3)):
+            s1[pos] = e
+    return {'s1': s1, 's2': s2, 'sign': sign, 'window': window,
             'penalty': draw(gen.penalty_strategy('L')), 'inner': draw(st.sampled_from(gen.INNER_NAMES))}
 
 
